@@ -51,8 +51,12 @@ re-attach  when a controller re-attaches a stream that is already on a circuit (
            address is re-mapped, reports ``REMAP 0 addr SOURCE=CACHE`` before the SENTCONNECT for
            the new circuit.  Action ``unattach_remap``: an attached, not yet succeeded stream is
            reported with circuit 0 on a REMAP line; it is then unattached for every observer and is
-           attached again by a later ``attach``.  (The variant without any line between
-           ``SENTCONNECT 5`` and ``SENTCONNECT 7`` is not generated: DESIGN C07 leniency.)
+           attached again by a later ``attach``.  When the address is not re-mapped there is no line
+           in between: ``SENTCONNECT 5`` is followed directly by ``SENTCONNECT 7`` (action ``move``,
+           ``Ev.moved``; the stream is then on circuit 7 for Tor).  What a client shows as the
+           stream's circuit after such a line is left open by the properties (``moved_unjudged``
+           until the next DETACHED / REMAP 0); that it shows ONE circuit consistently, hears the
+           later transitions and forgets the stream when it ends is not.
 quoted     Tor >= 0.4.3 appends ``SOCKS_USERNAME="..." SOCKS_PASSWORD="..."`` (QuotedStrings, C
            escapes for ``"`` and ``\\``, blanks sent literally) to every event of a stream that
            authenticated over SOCKS5, and to the CIRC events of circuits isolated by such
@@ -94,7 +98,7 @@ API in short
     sim.leave_unattached, sim.commands, sim.on_events (observers), sim.stats (what the history contained)
     sim.gen_window(rnd) / sim.apply_unobserved(acts)    # steps inside the subscription window (NEW lost)
     sim.known_streams() / sim.known_circuits()          # live objects Tor has reported; sim.zombies (FAILED, CLOSED due)
-    Ev flags: first_sight, gone, ghost (CLOSED after FAILED), attach, quoted_space, unspecified, snapshot
+    Ev flags: first_sight, gone, ghost (CLOSED after FAILED), attach, moved, quoted_space, unspecified, snapshot
     script(rnd, pre, n) -> (population, history), script_w(...) -> (population, window, history) off-line; selftest(); SimSession(sim, boot=...) = real
     TorControlProtocol + TorState bootstrapped against FakeTor + sim (.state .proto .tor .link .step(a) .pump())
 
@@ -262,6 +266,9 @@ class SimStream(object):
         self.reported_remap = None     # address of the last REMAP reported
         self.last_keywords = {}
         self.client_attached = False   # the controller has been told a circuit (and no DETACHED since)
+        self.moved_unjudged = False    # Tor moved it to another circuit without DETACHED; see module docstring
+        self.moved_from = None         # (circuit id, uid) it was on before that
+        self.moved_ids = set()         # ids of all circuits it has been moved between since
 
     @property
     def target(self):
@@ -289,7 +296,7 @@ class Ev(object):
               observer when this line was sent
     """
     __slots__ = ("kind", "oid", "uid", "status", "text", "keywords", "expect", "unspecified",
-                 "first_sight", "gone", "snapshot", "ghost", "attach", "quoted_space")
+                 "first_sight", "gone", "snapshot", "ghost", "attach", "quoted_space", "moved")
 
     def __init__(self, kind, oid, uid, status, text, keywords):
         self.kind = kind
@@ -305,6 +312,7 @@ class Ev(object):
         self.snapshot = False
         self.ghost = False
         self.attach = None          # circuit id if this line is the one that reports the attachment
+        self.moved = False          # SENTCONNECT on another circuit with no DETACHED / REMAP 0 before it
         self.quoted_space = any(" " in v for v in keywords.values())   # a quoted value with a blank inside
 
     def __repr__(self):
@@ -782,6 +790,10 @@ class TorSim(object):
         self._need(not s.marked and not s.circ_dead, "marked or on dead circuit")
         if a == "cwait":
             self._need(not s.circ and s.status in ("NEW", "NEWRESOLVE", "DETACHED", "REMAP"))
+        elif a == "move":
+            c = self.circuits[act["circ"]]
+            self._need(s.circ and not s.succeeded and s.status in ("SENTCONNECT", "SENTRESOLVE"))
+            self._need(c.status == "BUILT" and not c.marked and c.uid != s.circ_uid, "no other open circuit")
         elif a == "unattach_remap":
             self._need(s.circ and not s.succeeded and s.status in ("SENTCONNECT", "SENTRESOLVE", "REMAP"))
         elif a == "remap":
@@ -922,8 +934,10 @@ class TorSim(object):
             s.last_keywords = kwd
             if status == "DETACHED":
                 s.client_attached = False
+                s.moved_unjudged = False
             elif status not in ("CLOSED", "FAILED") and not circ:
                 s.client_attached = False      # Tor says: on no circuit
+                s.moved_unjudged = False
             elif status not in ("CLOSED", "FAILED") and circ and not s.client_attached:
                 # first line that tells the controller which circuit the stream is on
                 s.client_attached = True
@@ -977,6 +991,23 @@ class TorSim(object):
             s.reported_remap = act["addr"]
         if ev.attach:
             ev.expect.append(("stream_attach", ev.attach))
+        return [ev]
+
+    def _do_move(self, act):
+        """another controller re-attaches the stream and the address is not re-mapped: the next line is
+        the SENTCONNECT / SENTRESOLVE on the new circuit"""
+        s = self.streams[act["id"]]
+        c = self.circuits[act["circ"]]
+        s.moved_from = (s.circ, s.circ_uid)
+        s.moved_ids = (s.moved_ids if s.moved_unjudged else {s.circ}) | {c.id}    # every circuit since the last judged attachment
+        s.circ, s.circ_uid = c.id, c.uid
+        c.had_streams = True
+        self._count("moved_without_detached")
+        ev = self._stream_event(s, "SENTCONNECT" if s.kind == "connect" else "SENTRESOLVE", c.id)
+        ev.moved = True
+        ev.unspecified = True          # whether a client announces the new circuit is left open
+        if self.reporting:
+            s.moved_unjudged = True
         return [ev]
 
     def _do_unattach_remap(self, act):
@@ -1201,6 +1232,9 @@ class TorSim(object):
                 if not s.succeeded:
                     if s.status in ("SENTCONNECT", "SENTRESOLVE") and rnd.random() < 0.35:
                         out.append((2.0, {"a": "remap", "id": s.id, "addr": rnd.choice(REMAP_ADDRS)}))
+                    others = [i for i in open_circs if self.circuits[i].uid != s.circ_uid]
+                    if s.status in ("SENTCONNECT", "SENTRESOLVE") and others and rnd.random() < 0.7:
+                        out.append((1.6, {"a": "move", "id": s.id, "circ": rnd.choice(others)}))
                     if s.status in ("SENTCONNECT", "SENTRESOLVE", "REMAP") and rnd.random() < 0.5:
                         out.append((0.7, {"a": "unattach_remap", "id": s.id, "addr": rnd.choice(REMAP_ADDRS)}))
                     if s.kind == "connect":
@@ -1254,7 +1288,7 @@ class TorSim(object):
                 for w, a in self.candidates(rnd):
                     if a["a"] == "snew" and len(mine) < 3:
                         cands.append((w, a))
-                    elif a["a"] in ("remap", "unattach_remap", "attach", "succeed", "detach", "cwait", "sclose", "sfail", "zclose") \
+                    elif a["a"] in ("remap", "unattach_remap", "move", "attach", "succeed", "detach", "cwait", "sclose", "sfail", "zclose") \
                             and a["id"] in mine and self.legal(a):
                         cands.append((w * (0.3 if a["a"] in ("sclose", "sfail") else 1.0), a))
                 if not cands:
